@@ -60,7 +60,27 @@ class Event:
         self.kwargs = kwargs
 
 
+class _ModelDict(dict):
+    """a dict in which (as in the solver's model) every key is present except the listed absent ones: unlisted keys map to the default"""
+
+    default = None
+    absent: set = set()
+
+    def __contains__(self, k):
+        return dict.__contains__(self, k) or k not in self.absent
+
+    def __missing__(self, k):
+        if k in self.absent:
+            raise KeyError(k)
+        return self.default
+
+    def get(self, k, d=None):
+        return self[k] if k in self else d
+
+
 def decode(val, decl, ns, log, guards_cb, name="v"):
+    if val == "<deep>":
+        val = None          # value beyond the concretisation depth: use the declared type's default
     if isinstance(decl, str):
         if decl in ("int", "bool", "str", "real", "any"):
             if val is None:
@@ -85,10 +105,17 @@ def decode(val, decl, ns, log, guards_cb, name="v"):
         cls = import_class(decl[1])
         if getattr(cls, "__abstractmethods__", None):
             cls = type(cls.__name__ + "Concrete", (cls,), {m: (lambda self, *a, **k: None) for m in cls.__abstractmethods__})
-        o = object.__new__(cls)
+        try:
+            o = object.__new__(cls)
+        except TypeError:
+            o = cls.__new__(cls)         # classes with a C-level base (SimpleNamespace, ...) refuse object.__new__
         fields = val.get("fields", {}) if isinstance(val, dict) else {}
         for fname, fdecl in decl[2].items():
-            object.__setattr__(o, fname, decode(fields.get(fname), fdecl, ns, log, guards_cb, fname))
+            v = decode(fields.get(fname), fdecl, ns, log, guards_cb, fname)
+            try:
+                object.__setattr__(o, fname, v)
+            except (AttributeError, TypeError):
+                setattr(o, fname, v)
         return o
     if kind == "nt":
         cls = import_class(decl[1])
@@ -122,7 +149,13 @@ def decode(val, decl, ns, log, guards_cb, name="v"):
         return out
     if kind == "dict":
         items = val.get("__dict__", []) if isinstance(val, dict) else []
-        return {_hashable(decode(k, decl[1], ns, log, guards_cb)): decode(v, decl[2], ns, log, guards_cb) for k, v in items}
+        d = _ModelDict() if isinstance(val, dict) and val.get("default_in_dom") and "default_value" in val else {}
+        for k, v in items:
+            d[_hashable(decode(k, decl[1], ns, log, guards_cb))] = decode(v, decl[2], ns, log, guards_cb)
+        if isinstance(d, _ModelDict):
+            d.default = decode(val["default_value"], decl[2], ns, log, guards_cb)
+            d.absent = {_hashable(decode(k, decl[1], ns, log, guards_cb)) for k in val.get("absent", [])}
+        return d
     if kind == "effect":
         return Recorder(decl[1], decl[2], log, guards_cb, ns)
     if kind == "callable":
